@@ -140,7 +140,7 @@ def seq_insts(run, cfg):
     for nm, (mk, vals, op, bparam) in asserts.items():
         for fnm, fmk in first.items():
             for v in vals:
-                for g in ("none", 0):
+                for g in ("none", 0) + (("exc", "excdiv") if fnm == "same" else ()):
                     for mode in ("ign", "plain"):
                         B = gen.Builder("seq/%s/%s/%d/%s/%s" % (nm, fnm, v, g, mode), mode, None,
                                         {"op": op, "kinds": "S", "a": v, "b": bparam, "n": bparam if op in ("assert_positive", "to_bits") else cfg["bitlength"]})
@@ -148,6 +148,11 @@ def seq_insts(run, cfg):
                         f1 = (fmk or mk)(rx)
                         if g == "none":
                             B.add(f1)
+                        elif g in ("exc", "excdiv"):
+                            # a region whose guard is 0 is left through an exception that the program catches (a user exception,
+                            # a division by a zero-valued secret): nothing of the region may linger when the assertion is made
+                            bad = {"op": "raise"} if g == "exc" else {"op": "bin", "name": "truediv", "a": rx, "b": B.opnd(("S", 0))}
+                            B.add({"op": "try", "body": [{"op": "guarded", "cond": B.opnd(("SB", 0)), "body": [bad]}]})
                         else:
                             B.add({"op": "guarded", "cond": B.opnd(("SB", 0)), "body": [f1]})
                         st = mk(rx)
